@@ -124,7 +124,12 @@ def check(sid, tier='quick'):
         env = dict(os.environ)
         env['VERIF_REPO'] = d
         t0 = time.time()
+        # the check rewrites evidence/<pid>.json; evidence must describe /repo itself, so put the file back afterwards
+        evp = os.path.join(HERE, 'evidence', pid + '.json')
+        ev_saved = open(evp).read() if os.path.exists(evp) else None
         rc, out = sh('./vc check %s --tier %s' % (pid, tier), cwd=HERE, env=env, timeout=7200)
+        if ev_saved is not None:
+            open(evp, 'w').write(ev_saved)
         viol = [l for l in out.split('\n') if l.startswith('VIOLATION') or 'failed obligation' in l or l.startswith('INCONCLUSIVE')]
         mp = os.path.join(dst, 'meta.json')
         meta = json.load(open(mp))
